@@ -1,6 +1,6 @@
 /-
   C06 — the LZMA1 / LZMA2 raw decoders as coders of the generic framework of Model/Coder.lean (the vocabulary of Props/C06.lean:
-  `Coder`, `Run`, `runSliced`, `settled`), and the unrestricted link between sliced runs and the one-shot LZMA1 model.
+  `Coder`, `Run`, `runSliced`, `settled`), and the unrestricted link between sliced runs and the one-shot models `lzmaDecode` / `lzma2Decode`.
   Continuation of Props/C06Slice.lean (read its header first).
 
   `lzCoder kind` (Model/LzmaResumeCoder.lean): one `code` call on the offered input SLICE and the output capacity = `callR kind` on
@@ -71,5 +71,39 @@ theorem lzma1_window_sliced_eq_oneshot_all (props : Props) (hv : props.valid = t
     have := h.2.2.2
     rw [h0] at this
     cases this
+
+/-- **LZMA2: the resumable model called once with everything IS the one-shot model `Lzma2.lzma2Decode`** (the model C03's correspondence
+    ties to liblzma) — no hypothesis: any dictionary size, preset, input, output allowance (also the default `UNLIMITED`). -/
+theorem oneshot_lzma2_all (dictSize : Nat) (preset input : List UInt8) (outCap : Nat) :
+    lzma2Decode dictSize input preset outCap =
+      { ret := (callR .lzma2 (toBuf input) outCap (initLzma2R dictSize preset)).1,
+        out := (callR .lzma2 (toBuf input) outCap (initLzma2R dictSize preset)).2.output,
+        consumed := (callR .lzma2 (toBuf input) outCap (initLzma2R dictSize preset)).2.s.inPos } :=
+  lzma2Decode_eq_callR dictSize preset input outCap
+
+/-- **LZMA2, the property as stated**: for every input byte string (valid or not), every way of slicing it into `lzma_code` calls
+    `(avail_in, avail_out)` — empty slices, zero and one-byte capacities, shrinking windows included — whose run is settled, the status
+    is that of the single call with the whole input and any larger output allowance (`lzma2Decode … Nstar`: LZMA_STREAM_END /
+    LZMA_DATA_ERROR / LZMA_OK = needs more input); and unless the run raised the chunk-overrun LZMA_DATA_ERROR, so are the concatenated
+    output and the total consumed count. -/
+theorem lzma2_window_sliced_eq_oneshot_all (dictSize : Nat) (preset input : List UInt8) (sl : List (Nat × Nat))
+    (hset : (runSlicedX .lzma2 input sl { r := initLzma2R dictSize preset }).settled = true)
+    (Nstar : Nat) (hN : maxRoomX .lzma2 input sl { r := initLzma2R dictSize preset } < Nstar) :
+    let X := runSlicedX .lzma2 input sl { r := initLzma2R dictSize preset }
+    X.ret = (lzma2Decode dictSize input preset Nstar).ret
+    ∧ (X.r.overrun = false →
+        X.r.output = (lzma2Decode dictSize input preset Nstar).out ∧ X.r.s.inPos = (lzma2Decode dictSize input preset Nstar).consumed) := by
+  intro X
+  have e := xsliced_settled_eq_whole lzma2_call_absorbs' lzma2_call_wraps lzma2_call_idle' input
+    (invW_initLzma2R (P := P2') dictSize preset (p2'_init dictSize preset)) sl hset Nstar hN
+  rw [oneshot_lzma2_all dictSize preset input Nstar]
+  refine ⟨?_, ?_⟩
+  · rcases e with h | h
+    · exact h.1
+    · exact h.1.trans h.2.1.symm
+  · intro hno
+    rcases e with h | h
+    · exact ⟨normW_output h.2, normW_inPos h.2⟩
+    · have := h.2.2.1; rw [show X.r.overrun = false from hno] at this; cases this
 
 end XzVerif.C06Slice
